@@ -245,6 +245,9 @@ func c15ICMP(c *wk.Ctx, idx *int64) {
 	n := c.N(20_000, 400_000)
 	for i := int64(0); i < n; i++ {
 		*idx++
+		if i%64 == 0 {
+			setLogLevels(i/64%2 == 1) // the send paths log (and touch) the message at debug level
+		}
 		r := c.Rand("c15icmp", i)
 		id, seq := uint16(r.Intn(65536)), uint16(r.Intn(65536))
 		dmac := net.HardwareAddr{2, byte(r.Intn(256)), byte(r.Intn(256)), 3, 4, 5}
